@@ -47,12 +47,16 @@ Definition C19_slice_stmt : Prop :=
        get_slice (stack_grid nx ny nz) axis idx = None).
 
 (** stacks of any layout (disks: rows of different length) and any element type: the slice along
-    axis 0 takes entry i of every row of every shape, the slice along 2 is one whole shape *)
+    axis 0 takes entry i of every row of every shape, the slice along 1 is row j of every shape (for a
+    disk: index 0 = the cores, the last index = the shells of all tiers), the slice along 2 is one whole shape *)
 Definition C19_slice_generic_stmt : Prop :=
   forall (A : Type) (g : list (list (list A))),
     (forall i, (forall s, In s g -> forall r, In r s -> i < length r) ->
        exists l, get_slice g 0 (Z.of_nat i) = Some l /\ length l = length (concat g) /\
                  forall x, In x l <-> exists s r, In s g /\ In r s /\ nth_error r i = Some x) /\
+    (forall j, (forall s, In s g -> j < length s) ->
+       exists l, get_slice g 1 (Z.of_nat j) = Some l /\
+                 forall x, In x l <-> exists s r, In s g /\ nth_error s j = Some r /\ In x r) /\
     (forall idx, get_slice g 2 idx = option_map (@concat A) (py_nth g idx)).
 
 (** ** statements: core / shell *)
@@ -149,7 +153,10 @@ Proof.
 Qed.
 
 Theorem C19_slice_generic : C19_slice_generic_stmt.
-Proof. intros A g. split; [intros i H; apply get_slice0_generic; exact H | intro idx; reflexivity]. Qed.
+Proof.
+  intros A g. split; [intros i H; apply get_slice0_generic; exact H|].
+  split; [intros j H; apply get_slice1_generic; exact H | intro idx; reflexivity].
+Qed.
 
 Theorem C19_core_shell_split : C19_core_shell_split_stmt.
 Proof. intros A ops n. exact (core_shell_partition ops n). Qed.
